@@ -25,6 +25,20 @@ func isHO(op string) bool {
 func BuildHO(g string, outer ro.Observable[any], inner []ro.Observable[any]) (ro.Observable[any], error) {
 	pick := func(x any) ro.Observable[any] { return inner[toInt(x)-1] }
 	asObs := ro.Map(pick)(outer)
+	// the index flavours: the j-th outer value (value j) is handed over with index j-1; a wrong index or a nil context picks a poisoned source
+	poisoned := ro.Throw[any](fmt.Errorf("verif: projection called with a wrong index or a nil context"))
+	pickI := func(x any, i int64) ro.Observable[any] {
+		if int(i) != toInt(x)-1 {
+			return poisoned
+		}
+		return pick(x)
+	}
+	pickC := func(ctx context.Context, x any, i int64) ro.Observable[any] {
+		if ctx == nil || (i >= 0 && int(i) != toInt(x)-1) {
+			return poisoned
+		}
+		return pick(x)
+	}
 	switch g {
 	case "MergeAll":
 		return ro.MergeAll[any]()(asObs), nil
@@ -34,6 +48,22 @@ func BuildHO(g string, outer ro.Observable[any], inner []ro.Observable[any]) (ro
 		return ro.ConcatAll[any]()(asObs), nil
 	case "FlatMap":
 		return ro.FlatMap(pick)(outer), nil
+	case "MergeMapI":
+		return ro.MergeMapI(pickI)(outer), nil
+	case "MergeMapWithContext":
+		return ro.MergeMapWithContext(func(ctx context.Context, x any) ro.Observable[any] { return pickC(ctx, x, -1) })(outer), nil
+	case "MergeMapIWithContext":
+		return ro.MergeMapIWithContext(func(ctx context.Context, x any, i int64) (context.Context, ro.Observable[any]) {
+			return ctx, pickC(ctx, x, i)
+		})(outer), nil
+	case "FlatMapI":
+		return ro.FlatMapI(pickI)(outer), nil
+	case "FlatMapWithContext":
+		return ro.FlatMapWithContext(func(ctx context.Context, x any) ro.Observable[any] { return pickC(ctx, x, -1) })(outer), nil
+	case "FlatMapIWithContext":
+		return ro.FlatMapIWithContext(pickC)(outer), nil
+	case "CombineLatestAllAny":
+		return tupleAny(ro.CombineLatestAllAny()(asObs)), nil
 	case "CombineLatestAll":
 		return tupleAny(ro.CombineLatestAll[any]()(asObs)), nil
 	case "ZipAll":
